@@ -767,23 +767,28 @@ class CodeGen {
     }
   }
 
-  /// Iteratively update label values until the program size does not change.
-  /// Return the final size of the program.
-  /// Return true if the next directive after index that occupies space is data.
-  bool labelNamesData(size_t index) const {
-    for (size_t i = index + 1; i < program.size(); i++) {
-      if (program[i]->getToken() == Token::DATA) {
-        return true;
-      }
-      if (program[i]->getToken() != Token::IDENTIFIER &&
-          program[i]->getToken() != Token::FUNC &&
-          program[i]->getToken() != Token::PROC) {
-        return false;
+  /// Return for each directive whether it is a label naming data, that is
+  /// whether the next directive after it that occupies space is data.
+  std::vector<bool> labelsNamingData() const {
+    std::vector<bool> namesData(program.size(), false);
+    bool nextIsData = false;
+    for (size_t index = program.size(); index-- > 0;) {
+      auto token = program[index]->getToken();
+      if (token == Token::DATA) {
+        nextIsData = true;
+      } else if (token == Token::IDENTIFIER ||
+                 token == Token::FUNC ||
+                 token == Token::PROC) {
+        namesData[index] = nextIsData;
+      } else {
+        nextIsData = false;
       }
     }
-    return false;
+    return namesData;
   }
 
+  /// Iteratively update label values until the program size does not change.
+  /// Return the final size of the program.
   void resolveLabels() {
     int byteOffset = 0;
     bool changed = true;
@@ -791,6 +796,7 @@ class CodeGen {
     // every label reference. After that instruction sizes only grow, so this
     // terminates.
     bool placeLabelsOnly = true;
+    auto namesData = labelsNamingData();
     while (changed) {
       changed = placeLabelsOnly;
       byteOffset = 0;
@@ -800,7 +806,7 @@ class CodeGen {
                        directive->getToken() == Token::FUNC ||
                        directive->getToken() == Token::PROC;
         if (directive->getToken() == Token::DATA ||
-            (isLabel && labelNamesData(index))) {
+            (isLabel && namesData[index])) {
           // Data, and labels naming data, must be on 4-byte boundaries.
           if (byteOffset & 0x3) {
             byteOffset += 4 - (byteOffset & 0x3);
